@@ -25,7 +25,7 @@ SMALL = "struct S { int a; char b; };\nint f(struct S *s);\nextern int g;\n#defi
 def big_header(n):
     parts = []
     for i in range(n):
-        parts.append(f"/** record {i}:  two  spaces,   three   spaces and a \"quoted\" word */\nstruct B{i} {{ int a{i}; double d{i}; unsigned f{i}:3; }}; int bf{i}(struct B{i} *p, int q, long r);"
+        parts.append(f"/** record {i}: \u65e5\u672c\u8a9e \u00e9\u00e8 \U0001F600  two  spaces,   three   spaces and a \"quoted\" word */\nstruct B{i} {{ int a{i}; double d{i}; unsigned f{i}:3; }}; int bf{i}(struct B{i} *p, int q, long r);"
                      f"\n#define STR{i} \"string literal {i} with  runs   of    spaces { 'x ' * (i % 7) }\"")
     return "\n".join(parts) + "\n"
 
